@@ -632,7 +632,8 @@ impl LogInnerManager {
                 let result = match mark {
                     LogWriteMark::Success => LogWriteResult::Success,
                     LogWriteMark::SuccessToEnd => {
-                        if last_index + 1 == list.len() {
+                        // last_index counts the records written: the whole batch is in when it reaches the length
+                        if last_index == list.len() {
                             LogWriteResult::SuccessToEnd(self.get_end_index(), self.last_term)
                         } else {
                             LogWriteResult::FailureBatch(
